@@ -13,7 +13,7 @@ LEVEL = "model_checking"
 
 
 def run(chk, tier, seed):
-    n = 1500 if tier == "quick" else 12000
+    n = 4000 if tier == "quick" else 12000
     poolcheck.run_pool(chk, "XrSeq", "XrSeq.cfg", "c15", n, 14, seed, kind="sequence")
     chk.cov["rule"] = ("TLC -simulate walks of the XrSeq pool machine: 12 operations per program over earlier bindings; "
                        "non-trivial = distinct rendered program")
